@@ -193,6 +193,26 @@ class C08(Prop):
         run.c08 = strings
         return out
 
+    def shrink_extra(self, plan, test):
+        """Drop arcs from the dotted strings while the same oracle keeps failing."""
+        import copy
+
+        best = plan
+        for n, op in enumerate(plan.get("ops", [])):
+            for key in ("oid",):
+                if key not in op:
+                    continue
+                parts = best["ops"][n][key].split(".")
+                i = len(parts) - 1
+                while i >= 2 and len(parts) > 2:
+                    cand = copy.deepcopy(best)
+                    trial = parts[:i] + parts[i + 1 :]
+                    cand["ops"][n][key] = ".".join(trial)
+                    if test(cand):
+                        best, parts = cand, trial
+                    i -= 1
+        return best
+
     def abstract(self, run):
         import hashlib
 
